@@ -224,6 +224,12 @@ def expand(t, limit: int = 32) -> Optional[List[Term]]:
         return None
 
 
+def instances(t, limit: int = 32) -> List[Term]:
+    """alternative-free instances of t (nested alternatives distributed); [t] when there are too many"""
+    r = expand(t, limit)
+    return r if r is not None else [t]
+
+
 class Sym:
     def __init__(self, cx, selfname: Optional[str] = "self", max_alts: int = 8, max_depth: int = 40):
         self.cx = cx
@@ -435,6 +441,11 @@ class Sym:
             return ("glob", name)
         if sd.kind == "del":
             return ("opaque", f"deleted:{name}")
+        if sd.kind == "aug":
+            st = sd.stmt
+            old = self._name(name, sd.nid, depth, cenv)
+            # `x OP= y` is not `x OP y`: it dispatches to x's in-place method first (distinct term)
+            return ("aug", A.BINOP_TOKEN.get(type(st.op), "?"), old, self._of(st.value, sd.nid, depth, cenv))
         if sd.kind == "assign":
             v = sd.value
             # synthetic Subscript(value, Constant(i)) from tuple unpacking -> item
@@ -442,7 +453,8 @@ class Sym:
                     and not hasattr(v, "lineno"):
                 return self._item(self._of(v.value, sd.nid, depth, cenv), v.slice.value)
             kind = self._fresh_kind(v)
-            literal_nonempty = isinstance(v, (ast.List, ast.Set, ast.Dict)) and bool(getattr(v, "elts", None) or getattr(v, "keys", None))
+            literal_nonempty = (isinstance(v, (ast.List, ast.Set, ast.Dict)) and bool(getattr(v, "elts", None) or getattr(v, "keys", None))) \
+                or isinstance(v, (ast.ListComp, ast.SetComp, ast.DictComp))
             if kind is not None and not (literal_nonempty and not weak) and (name, sd.nid) not in self._acc_busy:
                 # what is added may itself be computed from the container (a work list): inside, the container
                 # stands for its initial contents only
@@ -464,6 +476,12 @@ class Sym:
             return "set"
         if isinstance(v, ast.Dict) and all(k is not None for k in v.keys):
             return "dict"
+        if isinstance(v, ast.ListComp):
+            return "list"
+        if isinstance(v, ast.SetComp):
+            return "set"
+        if isinstance(v, ast.DictComp):
+            return "dict"
         if isinstance(v, ast.Call):
             n = (A.call_name(v) or "").split(".")[-1]
             if n in FRESH_CALLS and not v.keywords:
@@ -476,6 +494,9 @@ class Sym:
     def _initial_contrib(self, v, nid, depth, cenv):
         if isinstance(v, ast.Call) and v.args and (A.call_name(v) or "").split(".")[-1] in ("set", "list", "deque", "dict", "OrderedDict"):
             return self._splice("many", (), self._of(v.args[0], nid, depth, cenv))
+        if isinstance(v, (ast.ListComp, ast.SetComp, ast.DictComp)):
+            t = self._comp(v, nid, depth, cenv)
+            return list(t[2])
         if isinstance(v, (ast.List, ast.Set)):
             return [("one", (), self._of(e, nid, depth, cenv)) for e in v.elts]
         if isinstance(v, ast.Dict):
